@@ -1,5 +1,6 @@
 import MdsVerif.Proofs.Stack
 import MdsVerif.Proofs.Mlink
+import MdsVerif.Proofs.MlinkRefine
 import MdsVerif.Proofs.Ring
 /-!
 # C10 — stack, mlink.List/Queue and ring.Ring preserve their abstract sequence
@@ -297,6 +298,23 @@ theorem C10_list_queries (h : Heap) (ids : List Nat) (hw : WF h (0 :: ids)) :
   · simp [len, each_wf h ids hw none]
   · have := cell_link h [] 0 ids none hw.seg
     simp only [Mlink.isEmpty, this]; cases ids <;> simp
+
+/-- **C10 (mlink.List with cursors)**: for every history of the register machine — cursors obtained by
+`At, Find, Last, End` or copied, advanced by `Next`, edited through with `Push, Add, Set, Remove,
+Truncate` at any position, `Clear`, and every observation `Get, AtEnd, Peek, Each, Len, IsEmpty`,
+with up to four cursors alive at once and stale cursors used again — the heap model returns exactly
+what the positional reference `Spec.CursorList` returns: the same sequence, the same cursor
+positions, `panic "invalid cursor"` for exactly the cursors the documentation says are
+invalidated, never a fuel exhaustion (`hang` is not in the reference's vocabulary). -/
+theorem C10_mlink_history (ops : List Op) :
+    Mlink.run {} ops = MdsVerif.Spec.CursorList.run {} ops :=
+  run_sim {} {} [0] R_init ops
+
+/-- one step of the simulation, from any related pair of states -/
+theorem C10_mlink_step (s : St) (a : MdsVerif.Spec.CursorList.A) (xs : List Nat) (hR : R s a xs) (op : Op) :
+    ∃ xs', R (Mlink.step s op).1 (MdsVerif.Spec.CursorList.step a op).1 xs' ∧
+      (Mlink.step s op).2 = (MdsVerif.Spec.CursorList.step a op).2 :=
+  step_sim s a xs hR op
 
 /-- non-vacuity of `WF` and of the position view: the heap built by `End; Add 1 2 3 4` is well formed
 with chain `[0,1,2,3,4]`, and the cursor with `pred = 2` is at position 2 -/
